@@ -161,6 +161,21 @@ def run(res, drv, tier, seed):
             res.violation('failing-input', f'{engine}, iters={iters}: {bad}' + (f' (the parameters have diverged: max |theta| = {div:.3g})' if div else ''),
                           {'request': canon, 'expected': bad}, key=f'coherent:{engine}' + (':diverged-parameters' if div else ''))
             continue
+        # the model handed back stays one coherent distribution while it is USED: drawing records from it (which reads the stored
+        # marginals clique by clique) must not change a single answer
+        if hasattr(model, 'marginals') and ci % 3 == 0:
+            res.count('coherence re-checked after synthetic_data on the returned model')
+            bad = None
+            try:
+                with np.errstate(all='ignore'):
+                    model.synthetic_data(rows=r.choice([7, 50]))
+            except Exception as e:
+                bad = f'synthetic_data on the returned model raises {type(e).__name__}: {str(e)[:120]}'
+            bad = bad or check_model(model, prob, r)
+            if bad:
+                res.violation('failing-input', f'{engine}, iters={iters}: after drawing records from the returned model: {bad}', {'request': dict(canon, then='synthetic_data'), 'expected': bad},
+                              key=f'coherent-after-use:{engine}')
+                continue
         # correspondence: bp / mle on doubles against the stored pair
         dom = eng.domain
         mcl = [list(c) for c in model.cliques]
